@@ -230,13 +230,13 @@ def impl(case):
     if case.get('cb', True) == 'falsy':
         class FalsyCallback:                  # a callable whose truth value is False: only None means "no callback"
             def __call__(self):
-                fired.append(1)
+                fired.append(len(out))
 
             def __bool__(self):
                 return False
         kw['empty_queue_cb'] = FalsyCallback()
     elif case.get('cb', True):
-        kw['empty_queue_cb'] = lambda: fired.append(1)
+        kw['empty_queue_cb'] = lambda: fired.append(len(out))      # how many batches the target had received by then
     rq = None
     if case.get('rq', True):
         rq = kw['removed_queue'] = deque()
@@ -314,6 +314,9 @@ def impl(case):
         cb = len(fired) - n_fired
         if cb > 1:
             notes.append('empty_queue_cb called more than once in one send')
+        if cb and new and fired[-1] == n_out:
+            notes.append('empty_queue_cb fired BEFORE the epochs completed by the same chunk were handed to the target '
+                         '(an observer counting deliveries inside the callback sees an unfinished acquisition)')
         rows, ann, mds = [], None, None
         if new:
             arr = new[0]
